@@ -877,7 +877,7 @@ pub fn check_kill(kc: &KillCase, st: &mut Stats) -> CheckResult {
     let clients: Vec<Uuid> = (0..n).map(|i| case::client_uuid(kc.salt, i as u8)).collect();
     // per client: acknowledged (id, parent, payload) in order
     let acked: Arc<Mutex<Vec<Vec<(Uuid, Uuid, Vec<u8>)>>>> = Arc::new(Mutex::new(vec![vec![]; n]));
-    let to = std::time::Duration::from_secs(20);
+    let to = std::time::Duration::from_secs(120);
     for (round, delay) in kc.kill_after_ms.iter().enumerate() {
         let proc = start_server(&bin, dir.path())?;
         let addr = proc.addrs[0];
